@@ -30,7 +30,10 @@ class QuantityTransformer(_parser.Transformer[Any, "Quantity"]):
 
     @inline
     def term(self, symbol: str, exponent: int = 1) -> Unit:
-        return Unit.resolve_symbol(symbol) ** exponent
+        try:
+            return Unit.resolve_symbol(symbol) ** exponent
+        except OverflowError as e:  # a float prefix exponent (e.g. kB) times a huge power
+            raise ParseError(str(e)) from e
 
     @inline
     def carat_exponent(self, exponent: str) -> int:
